@@ -1,5 +1,6 @@
 import AslModel.Thread
 import AslProofs.Thread
+import AslProofs.SemN
 /-!
 # C13 — Thread start/join, ThreadGroup and parallel_for run every task exactly once
 
@@ -37,7 +38,7 @@ open Handover in
     reads its stack-allocated context after the creator has left that scope, and no worker writes the
     finished flag of a `Thread` object that has been deleted. -/
 theorem handover_safe (n : Nat) (cf : Bool) (s : List (Option Nat)) : (run (init n cf) s).bad = none :=
-  (run_inv s (init n cf) (init_inv n cf) rfl).2
+  (run_inv s (init n cf) (init_inv n cf) (init_rinv n cf) rfl).2
 
 open Handover in
 /-- **runs_once_and_join.**  When the creator has finished (all joins returned, all thread objects
@@ -45,7 +46,7 @@ open Handover in
 theorem runs_once_and_join (n : Nat) (cf : Bool) (s : List (Option Nat)) (hd : (run (init n cf) s).cpos = CPos.done) :
     ∀ j, j < n → (run (init n cf) s).ran j = 1 ∧ (run (init n cf) s).finished j = true := by
   intro j hj
-  obtain ⟨hI, _⟩ := run_inv s (init n cf) (init_inv n cf) rfl
+  obtain ⟨hI, _⟩ := run_inv s (init n cf) (init_inv n cf) (init_rinv n cf) rfl
   have hn : (run (init n cf) s).n = n := by rw [run_n]; rfl
   have hp := hI.pos
   unfold PosInv at hp
@@ -62,7 +63,7 @@ open Handover in
 theorem finished_after_join (n : Nat) (cf : Bool) (s : List (Option Nat)) (k : Nat)
     (hj : (run (init n cf) s).cpos = CPos.del k) :
     (run (init n cf) s).ran k = 1 ∧ (run (init n cf) s).finished k = true := by
-  obtain ⟨hI, _⟩ := run_inv s (init n cf) (init_inv n cf) rfl
+  obtain ⟨hI, _⟩ := run_inv s (init n cf) (init_inv n cf) (init_rinv n cf) rfl
   have hp := hI.pos
   unfold PosInv at hp
   rw [hj] at hp
@@ -73,23 +74,155 @@ theorem finished_after_join (n : Nat) (cf : Bool) (s : List (Option Nat)) (k : N
 
 open Handover in
 theorem never_twice (n : Nat) (cf : Bool) (s : List (Option Nat)) (j : Nat) (hj : j < n) : (run (init n cf) s).ran j ≤ 1 := by
-  obtain ⟨hI, _⟩ := run_inv s (init n cf) (init_inv n cf) rfl
+  obtain ⟨hI, _⟩ := run_inv s (init n cf) (init_inv n cf) (init_rinv n cf) rfl
   have hn : (run (init n cf) s).n = n := by rw [run_n]; rfl
   have hw := hI.w j (by rw [hn]; exact hj)
   unfold WInv at hw
   rw [hw.2.1]; split <;> omega
 
+open Handover in
+/-- **handover_progress.**  The protocol never gets stuck: in every reachable state in which the creator has not
+    finished, some thread can take a step (the creator, or the worker it is spinning on / joining). -/
+theorem handover_progress (n : Nat) (cf : Bool) (s : List (Option Nat))
+    (hnd : (run (init n cf) s).cpos ≠ CPos.done) : ∃ a, enabled (run (init n cf) s) a = true := by
+  obtain ⟨hI, _⟩ := run_inv s (init n cf) (init_inv n cf) (init_rinv n cf) rfl
+  generalize run (init n cf) s = c at hI hnd
+  have hp := hI.pos
+  unfold PosInv at hp
+  cases hc : c.cpos with
+  | spawn k => exact ⟨none, by simp [enabled, hc]⟩
+  | del k => exact ⟨none, by simp [enabled, hc]⟩
+  | done => exact absurd hc hnd
+  | spin k =>
+    rw [hc] at hp
+    obtain ⟨hk, hall⟩ := hp
+    by_cases hr : c.ready k = true
+    · exact ⟨none, by simp [enabled, hc, hr]⟩
+    · have hw := hI.w k hk
+      unfold WInv at hw
+      have h3 : ¬ 3 ≤ c.wpc k := fun h => hr (hw.1.mpr h)
+      have h1 := ((hall k hk).2.1 rfl).1
+      exact ⟨some k, by simp [enabled, hk]; omega⟩
+  | join k =>
+    rw [hc] at hp
+    obtain ⟨hk, hall⟩ := hp
+    by_cases h5 : c.wpc k = 5
+    · exact ⟨none, by simp [enabled, hc, h5]⟩
+    · have hw := hI.w k hk
+      unfold WInv at hw
+      have h2 := (hall k hk).1
+      exact ⟨some k, by simp [enabled, hk]; omega⟩
+
+
+/-- how often `f(i)` has been called: worker `k`'s body runs its whole index list `ran k` times -/
+def invocations (c : Handover.Cfg) (i0 i1 : Int) (nth : Nat) (i : Int) : Nat :=
+  ((List.range c.n).map fun k => c.ran k * (ParFor.worker i0 i1 nth k).count i).sum
+
+
+open Handover in
+/-- **parallel_for_end_to_end.**  The index arithmetic and the thread protocol together: run `parallel_for(i0, i1, f, nth)`
+    with its `min(nth, i1-i0)` workers under any interleaving; when the creator has returned (all joins done), `f(i)` has
+    been invoked exactly once for every `i` in `[i0, i1)` and never for any other `i`. -/
+theorem parallel_for_end_to_end (i0 i1 : Int) (nth : Nat) (hnth : 1 ≤ nth) (s : List (Option Nat))
+    (hd : (run (init (ParFor.nWorkers i0 i1 nth).toNat) s).cpos = CPos.done) (i : Int) :
+    invocations (run (init (ParFor.nWorkers i0 i1 nth).toNat) s) i0 i1 nth i = if i0 ≤ i ∧ i < i1 then 1 else 0 := by
+  generalize hn : (ParFor.nWorkers i0 i1 nth).toNat = n at hd ⊢
+  obtain ⟨hI, _⟩ := run_inv s (init n false) (init_inv n false) (init_rinv n false) rfl
+  have hcn : (run (init n) s).n = n := by rw [run_n]; rfl
+  have hran : ∀ k, k < n → (run (init n) s).ran k = 1 := by
+    intro k hk
+    have hp := hI.pos
+    unfold PosInv at hp
+    rw [hd] at hp
+    have h5 := (hp k (by rw [hcn]; exact hk)).1
+    have hw := hI.w k (by rw [hcn]; exact hk)
+    unfold WInv at hw
+    rw [hw.2.1, h5]; rfl
+  unfold invocations
+  rw [hcn]
+  have : ((List.range n).map fun k => (run (init n) s).ran k * (ParFor.worker i0 i1 nth k).count i) =
+      ((List.range n).map fun k => (ParFor.worker i0 i1 nth k).count i) := by
+    apply List.map_congr_left
+    intro k hk
+    rw [hran k (List.mem_range.mp hk), Nat.one_mul]
+  rw [this, ← count_flatMap_range]
+  have hall : (List.range n).flatMap (ParFor.worker i0 i1 nth) = ParFor.all i0 i1 nth := by
+    unfold ParFor.all; rw [hn]
+  rw [hall]
+  have hnd := all_nodup i0 i1 nth
+  have hmem := all_mem i0 i1 nth hnth i
+  rw [hnd.count]
+  by_cases hin : i0 ≤ i ∧ i < i1
+  · simp only [hin, and_self, if_true, hmem.mpr hin]
+  · simp only [hin, if_false]
+    have : i ∉ ParFor.all i0 i1 nth := fun h => hin (hmem.mp h)
+    simp [this]
+
+/-- with `nth = 0` (or negative: `min(nth, i1-i0) ≤ 0`) no worker is created and nothing runs, even on a non-empty range -/
+theorem parallel_for_zero_threads (i0 i1 : Int) : ParFor.all i0 i1 0 = [] := by
+  unfold ParFor.all
+  have : (ParFor.nWorkers i0 i1 0).toNat = 0 := by unfold ParFor.nWorkers; omega
+  simp [this]
+
+
 /-! ## Semaphore and Condition never lose a post or a signal -/
 
 open Sync in
-/-- **semaphore_no_lost_post.**  After any sequence of posts and waits: every post is either still
-    counted or has been consumed by exactly one completed wait; and a wait is refused only when the
-    count is 0 (i.e. every post made so far has already been consumed). -/
-theorem semaphore_no_lost_post (s : Sem) (ops : List SemOp) :
-    (s.run ops).count + (s.run ops).waits + s.posts = s.count + s.waits + (s.run ops).posts ∧
-    ((s.run ops).canWait = false ↔ (s.run ops).count = 0) := by
-  refine ⟨sem_conserved s ops, ?_⟩
-  unfold Sem.canWait; simp
+/-- sequential bookkeeping of one semaphore: every post is either still counted or has been consumed by exactly one
+    completed wait (the thread-level statement is `semaphore_no_lost_post_n` below) -/
+theorem semaphore_conserved (s : Sem) (ops : List SemOp) :
+    (s.run ops).count + (s.run ops).waits + s.posts = s.count + s.waits + (s.run ops).posts :=
+  sem_conserved s ops
+
+open AslModel.Thread.SemN AslProofs.SemN in
+/-- **semaphore_no_lost_post_n.**  Any number of waiting threads (waiter `i` wants `wW i` waits) and posting threads
+    (poster `j` makes `wP j` posts) on one semaphore with initial count `k0`, every interleaving `r`:
+    (1) the count is conserved: `count + completed waits = k0 + completed posts`, so no post is lost and no wait
+    completes without a post (or an initial unit) to pay for it;
+    (2) when nothing can happen any more, every post has been made and the number of completed waits is exactly
+    `min (all waits wanted) (k0 + all posts)`: a waiter is left blocked only if the posts are really used up. -/
+theorem semaphore_no_lost_post_n (nW nP k0 : Nat) (wW wP : Nat → Nat) (r : List Act) :
+    let c := run (init nW nP k0 wW wP) r
+    c.count + c.doneW = k0 + c.doneP ∧
+    (quiescent c → c.doneP = total nP wP ∧ c.doneW = min (total nW wW) (k0 + total nP wP)) := by
+  intro c
+  have hI : Inv c (init nW nP k0 wW wP) := inv_run r _ _ (inv_init nW nP k0 wW wP)
+  obtain ⟨h1, h2, h3, h4, h5⟩ := hI
+  simp only [init] at h1 h2 h3 h4 h5
+  refine ⟨h3, ?_⟩
+  intro hq
+  have hp0 : ∀ j, j < c.nP → c.wantP j = 0 := by
+    intro j hj
+    have := hq (Act.post j)
+    simp only [enabled, Bool.and_eq_false_iff, decide_eq_false_iff_not] at this
+    rcases this with h | h
+    · exact absurd hj h
+    · omega
+  have htp := total_zero c.nP c.wantP hp0
+  have hdp : c.doneP = total nP wP := by omega
+  refine ⟨hdp, ?_⟩
+  by_cases hc : 0 < c.count
+  · have hw0 : ∀ i, i < c.nW → c.wantW i = 0 := by
+      intro i hi
+      have := hq (Act.wait i)
+      simp only [enabled, Bool.and_eq_false_iff, decide_eq_false_iff_not] at this
+      rcases this with (h | h) | h
+      · exact absurd hi h
+      · omega
+      · exact absurd hc h
+    have htw := total_zero c.nW c.wantW hw0
+    omega
+  · omega
+
+open AslModel.Thread.SemN in
+/-- a waiter blocked on an empty semaphore can complete its wait as soon as any post has been made -/
+theorem semaphore_post_wakes (c : Cfg) (i j : Nat) (hi : i < c.nW) (hw : 0 < c.wantW i)
+    (hp : enabled c (Act.post j) = true) : enabled (step c (Act.post j)) (Act.wait i) = true := by
+  simp [enabled, step, hi, hw]
+
+open AslModel.Thread.SemN in
+example : (run (init 2 1 0 (fun _ => 1) (fun _ => 1)) [Act.wait 0, Act.post 0, Act.wait 1, Act.wait 0]).doneW = 1 := by decide
+
 
 open Sync in
 /-- **condition_no_lost_signal.**  Under the documented protocol (waiter: lock, `while(!pred) wait()`,
